@@ -161,6 +161,11 @@ CORPUS = [
     # a terminal whose match lengths have a gap (on "aaba": 4, 2, 1): dynamic_complete must offer every one of them
     ('gap-in-match-lengths', {'rules': [gen.rule('start', [gen.alt([['t', 'G'], ['t', 'G']])])], 'terms': [gen.term('G', ['x', 'a+(?:ba+)?', ''])], 'ignore': [], 'start': ['start']},
      ('dynamic', 'dynamic_complete'), ['aaba', 'aba', 'aa', 'abaa', 'aabaa', 'a', 'aaaba', 'ab']),
+    # terminals built from other terminals and regexps: each part is a regular language of its own (a|b followed by c is {ac, bc})
+    ('composite-terminal-alternation', {'rules': [gen.rule('start', [gen.alt([['t', 'X']]), gen.alt([['t', 'Z'], ['t', 'Z']])])],
+                                        'terms': [dict(gen.term('X', ['x', '(?:a|b)c', '']), text='Y "c"'), gen.term('Y', ['x', 'a|b', '']),
+                                                  dict(gen.term('Z', ['x', 'd(?:e|f+)', '']), text='"d" /e|f+/')], 'ignore': [], 'start': ['start']},
+     LEXERS, ['ac', 'bc', 'a', 'abc', 'c', 'dede', 'dfdff', 'dd', 'de', 'dedf']),
     ('complete-lex-split', {'rules': [gen.rule('start', [gen.alt([['t', 'A'], ['t', 'AB']])])], 'terms': [gen.term('A', ['x', 'a+', '']), gen.term('AB', ['x', 'a+b', ''])], 'ignore': [], 'start': ['start']},
      ('dynamic', 'dynamic_complete'), ['aab', 'ab', 'aaab', 'aa']),
     ('empty-rule-mid', {'rules': [gen.rule('start', [gen.alt([gen.LIT('a'), ['r', 'e'], gen.LIT('b')])]), gen.rule('e', [gen.alt([])])], 'terms': [], 'ignore': [], 'start': ['start']},
